@@ -39,29 +39,21 @@ import (
 )
 
 // ---- known findings (generator exclusions) ---------------------------------
+//
+// The four gateway defects this check found (thresholds compared with a
+// similarity score, marker pass-through before the firewall, gateway-created
+// cache index without a text analyzer, invalidation by token overlap) are
+// repaired in /repo (4b99be8, 51bc39f, 9e5aa28, d988c8f); their minimal
+// histories are regression replays (replays/C17/reg_*.json) and the generator
+// explores those shapes on every run. One exclusion remains:
 
-const (
-	c17FindThr  = "threshold-as-similarity"  // similarity 1/(1+d) compared with thresholds documented as distances
-	c17FindMark = "marker-bypass"            // isSystemTask pass-through precedes both firewall layers
-	c17FindIdx  = "cache-index-no-analyzer"  // saveToCache creates the cache index without a text analyzer => invalidation finds nothing
-	c17FindTok  = "invalidate-token-overlap" // invalidation = OR of stemmed tokens, not membership of the id in the sources list
-	// engine defect owned by C07 (soft-deleted HNSW entry point: vectors added
-	// after the entry point was deleted are not linked to it and are never found);
-	// it surfaces here once the gateway has deleted a cache entry
-	c17FindEP = "deleted-entrypoint" // same short name as C07 uses for this root cause
-)
+// c17FindEP: engine defect owned by C07 (soft-deleted HNSW entry point: vectors
+// added after the entry point was deleted are not linked to it and are never
+// found); it surfaces here once the gateway has deleted a cache entry. Same
+// short name as C07 uses for this root cause.
+const c17FindEP = "deleted-entrypoint"
 
-// c17ExclusionOn: set an entry to false once the defect has been repaired in
-// /repo; the generator then explores that shape again on every run.
-var c17ExclusionOn = map[string]bool{
-	c17FindThr:  true,
-	c17FindMark: true,
-	c17FindIdx:  true,
-	c17FindTok:  true,
-	c17FindEP:   true,
-}
-
-func c17Excl(name string) bool { return c17ExclusionOn[name] && verifkit.Known(name) }
+func c17Excl(name string) bool { return verifkit.Known(name) }
 
 // ---- case -------------------------------------------------------------------
 
